@@ -12,6 +12,7 @@ import (
 	"os"
 	"os/exec"
 	"path/filepath"
+	"runtime"
 	"strings"
 	"syscall"
 	"time"
@@ -47,7 +48,7 @@ func (c05) Meta() fw.Meta {
 			"kills that land inside a Sync (last record sync-begin) are counted but not judged: the property speaks of points between Syncs",
 			"clock domain as C01",
 		},
-		Obligations: []string{"ops_with_byte_check", "syncs", "observer_windows_compared", "page_straddle_slot_dirtied", "sync_noncontiguous_dirty_pages", "abandon_prefixes", "kills_between_syncs", "kills_before_first_sync", "cli_failed_copy_dest_unchanged", "unsynced_dirty_state_checked", "damaged_file_histories", "failed_updates_before_sync", "waiting_opener_trials", "waiting_opener_had_to_wait", "bulk_batches"},
+		Obligations: []string{"ops_with_byte_check", "syncs", "observer_windows_compared", "page_straddle_slot_dirtied", "sync_noncontiguous_dirty_pages", "abandon_prefixes", "kills_between_syncs", "kills_before_first_sync", "cli_failed_copy_dest_unchanged", "unsynced_dirty_state_checked", "damaged_file_histories", "failed_updates_before_sync", "waiting_opener_trials", "waiting_opener_had_to_wait", "bulk_batches", "handles_dropped_and_collected", "histories_on_a_handle_without_flock"},
 		Workers:     12,
 	}
 }
@@ -158,7 +159,12 @@ func (c05) Run(c *fw.Ctx) {
 	nops := 15 + r.Intn(31)
 	rec := c05rec{L: l, Now: now0}
 	// main run with monitors 1 and 2
-	db, err := createFile(path, l)
+	var liveOpts []wt.Option
+	if c.Index%4 == 2 {
+		liveOpts = append(liveOpts, wt.WithoutFlock())
+		c.Count("histories_on_a_handle_without_flock", 1)
+	}
+	db, err := createFile(path, l, liveOpts...)
 	if err != nil {
 		c.Violationf("create-failed", fw.J{"layout": l, "err": err.Error()}, "Create failed: %v", err)
 		return
@@ -409,7 +415,12 @@ func (c05) Run(c *fw.Ctx) {
 	}
 	for n := range prefixes {
 		p2 := filepath.Join(c.TmpDir(), fmt.Sprintf("c05-ab-%d.wsp", n))
-		d2, err := createFile(p2, l)
+		var abOpts []wt.Option
+		if n%3 == 0 {
+			abOpts = append(abOpts, wt.WithoutFlock()) // the option changes who may open the file, not when bytes reach it
+			c.Count("abandoned_handles_without_flock", 1)
+		}
+		d2, err := createFile(p2, l, abOpts...)
 		if err != nil {
 			panic(err)
 		}
@@ -434,7 +445,19 @@ func (c05) Run(c *fw.Ctx) {
 				// abandon right before this op's Sync
 			}
 		}
-		d2.Close() // abandoned
+		how := "Close, no Sync"
+		if n%2 == 0 {
+			d2.Close() // abandoned
+		} else {
+			// dropped without Close: the handle becomes garbage and the collector runs (twice, finalizers in between)
+			how = "dropped without Close, then GC"
+			d2 = nil
+			runtime.GC()
+			time.Sleep(5 * time.Millisecond)
+			runtime.GC()
+			time.Sleep(5 * time.Millisecond)
+			c.Count("handles_dropped_and_collected", 1)
+		}
 		want := make([]byte, size)
 		// the synced image in force: after the last op k<n-1 with Sync
 		for k := n - 2; k >= 0; k-- {
@@ -448,7 +471,7 @@ func (c05) Run(c *fw.Ctx) {
 		if !bytes.Equal(got, want) {
 			d := firstDiff(got, want)
 			c.Violationf("abandoned-handle-left-trace", fw.J{"layout": l, "now": now0, "ops": rec.Ops[:n], "sync": rec.Sync[:n], "prefix": n, "offset": d, "unsynced_writes": unsyncedWrites},
-				"handle dropped (Close, no Sync) after %d ops with %d unsynced writes: file differs from the last synced image at byte %d", n, unsyncedWrites, d)
+				"handle abandoned (%s) after %d ops with %d unsynced writes: file differs from the last synced image at byte %d", how, n, unsyncedWrites, d)
 			os.Remove(p2)
 			return
 		}
